@@ -165,6 +165,23 @@ pub fn sweep(ctx: &mut Ctx) {
     sweep_kind::<Zbdd>(ctx, &mut rng, scripts.div_ceil(2), 4);
 }
 
+/// The same capacity sweeps, but everything happens INSIDE a `with_manager_shared` scope of
+/// another manager (as when functions are transferred between managers): the thread's local
+/// store state is bound to the outer manager, so every allocation in the swept manager takes
+/// the node store's path for foreign threads (shared free list / shared allocation counter).
+pub fn nested(ctx: &mut Ctx) {
+    use oxidd::ManagerRef;
+    let mut rng = ctx.rng(0xC14_E);
+    let scripts = ctx.by_tier(2, 40);
+    let outer = oxidd::bdd::new_manager(1 << 10, 1 << 6, 1);
+    outer.with_manager_shared(|_outer| {
+        sweep_kind::<Bdd>(ctx, &mut rng, scripts, 1);
+        sweep_kind::<Bcdd>(ctx, &mut rng, scripts, 1);
+        sweep_kind::<Zbdd>(ctx, &mut rng, scripts, 1);
+    });
+    ctx.count("nested_sweeps", 3 * scripts as u64);
+}
+
 /// Operations that have no error channel. Each case runs in its own shard (param selects it)
 /// because the documented behaviour on exhaustion is a process abort; they are listed in
 /// known_findings.json. case 0: ZBDD add_vars with too few node slots; case 1: BDD reordering
